@@ -200,12 +200,31 @@ type World struct {
 	OpTimeout time.Duration
 	// Conc: operations run concurrently under the scheduler; events carry call/return
 	// sequence numbers instead of a projection.
-	Conc   bool
-	evMu   sync.Mutex
-	clock  int64
-	spans  map[int64][2]int64
-	NoPost bool
-	Big    sync.Mutex
+	Conc      bool
+	evMu      sync.Mutex
+	clock     int64
+	spans     map[int64][2]int64
+	NoPost    bool
+	Big       sync.Mutex
+	procNames map[int64]string
+}
+
+// SetProc names the calling goroutine: events it emits carry that proc name.
+func (w *World) SetProc(name string) {
+	w.evMu.Lock()
+	defer w.evMu.Unlock()
+	if w.procNames == nil {
+		w.procNames = map[int64]string{}
+	}
+	w.procNames[sched.Gid()] = name
+}
+
+// EmitSpan records an environment event with an explicit call/return span.
+func (w *World) EmitSpan(ev string, a, r map[string]any, c, t int64, proc string) {
+	w.evMu.Lock()
+	defer w.evMu.Unlock()
+	w.nOp++
+	w.Events = append(w.Events, Event{Tr: w.Tr, I: w.nOp, Ev: ev, A: a, R: r, Post: map[string]any{}, C: c, T: t, Proc: proc})
 }
 
 type rng struct{ s uint64 }
@@ -462,6 +481,9 @@ func (w *World) emit(ev string, a, r map[string]any) *Event {
 	defer w.evMu.Unlock()
 	w.nOp++
 	e := Event{Tr: w.Tr, I: w.nOp, Ev: ev, A: a, R: r, Post: post}
+	if name, ok := w.procNames[sched.Gid()]; ok {
+		e.Proc = name
+	}
 	if sp, ok := w.spans[sched.Gid()]; ok {
 		e.C, e.T = sp[0], sp[1]
 		delete(w.spans, sched.Gid())
